@@ -655,13 +655,13 @@ impl<'a, T: QueryToRelationTranslator + Copy + Clone> VisitedQueryRelations<'a, 
                 let builder = Relation::map().split(map);
                 let builder = filter.into_iter().fold(builder, |b, e| b.filter(e));
                 let builder = group_by.into_iter().fold(builder, |b, e| b.group_by(e));
-                builder.input(from).build()
+                builder.input(from).try_build()?
             }
             Split::Reduce(reduce) => {
                 let builder = Relation::reduce().split(reduce);
                 let builder = filter.into_iter().fold(builder, |b, e| b.filter(e));
                 let builder = group_by.into_iter().fold(builder, |b, e| b.group_by(e));
-                builder.input(from).build()
+                builder.input(from).try_build()?
             }
         };
 
